@@ -4,30 +4,55 @@ import (
 	"fmt"
 	"os"
 	"runtime/debug"
+	"strings"
 
 	"github.com/ohler55/slip"
 	_ "github.com/ohler55/slip/pkg"
 	"verif/lisp"
 )
 
+func site(stack string) string {
+	lines := strings.Split(stack, "\n")
+	last := -1
+	for i, l := range lines {
+		if strings.HasPrefix(l, "panic(") {
+			last = i
+		}
+	}
+	var out []string
+	for i := last + 2; i+1 < len(lines) && len(out) < 3; i += 2 {
+		if strings.HasPrefix(lines[i], "runtime.") {
+			continue
+		}
+		fn := lines[i]
+		if p := strings.LastIndexByte(fn, '('); 0 < p {
+			fn = fn[:p]
+		}
+		loc := strings.TrimSpace(lines[i+1])
+		if p := strings.IndexByte(loc, ' '); 0 < p {
+			loc = loc[:p]
+		}
+		out = append(out, strings.TrimPrefix(fn, "github.com/ohler55/slip")+" "+loc)
+	}
+	return strings.Join(out, " <- ")
+}
+
 func main() {
-	src := os.Args[1]
-	func() {
-		defer func() {
-			if rec := recover(); rec != nil {
-				e := lisp.ErrFromRecovered(rec)
-				fmt.Printf("ERR %s | gofault=%v raw=%s hier=%v\n", e.String(), e.GoFault, e.Raw, e.Hier)
-				if p, ok := rec.(*slip.Panic); ok {
-					fmt.Printf("value=%v\n", p.Value)
+	for _, src := range os.Args[1:] {
+		func() {
+			defer func() {
+				if rec := recover(); rec != nil {
+					e := lisp.ErrFromRecovered(rec)
+					fmt.Printf("%s\n   => %s: %s\n", src, e.Class, e.Message)
+					if p, ok := rec.(*slip.Panic); ok && p.Value != nil || e.GoFault {
+						fmt.Printf("   at %s\n", site(string(debug.Stack())))
+					}
 				}
-				if len(os.Args) > 2 {
-					fmt.Printf("%s\n", debug.Stack())
-				}
-			}
+			}()
+			scope := slip.NewScope()
+			code := slip.ReadString(src, scope)
+			r := code.Eval(scope, nil)
+			fmt.Printf("%s\n   => VALUE %s\n", src, lisp.Show(r))
 		}()
-		scope := slip.NewScope()
-		code := slip.ReadString(src, scope)
-		r := code.Eval(scope, nil)
-		fmt.Printf("VAL %s\n", lisp.Show(r))
-	}()
+	}
 }
